@@ -145,9 +145,11 @@ pub(crate) fn run(seed: u64, n: u64, out: &mut Out) {
         let latest_len = rng.range(0, (tip - fin_number).min(2 * interval + 3));
         let mut peer_hashes: Vec<Vec<packed::Byte32>> = Vec::new();
         for (i, id) in ids.iter().enumerate() {
-            let l = if i == 0 || rng.chance(2, 3) { latest_len } else { rng.range(0, latest_len + 1) };
+            let l = if i == 0 || rng.chance(2, 3) { latest_len } else { rng.range(0, latest_len) };
             let mut hs: Vec<packed::Byte32> = (1..=l).map(|j| bc.fhashes[(fin_number + j) as usize].clone()).collect();
-            if i > 0 && rng.chance(1, 5) && !hs.is_empty() { let j = rng.below(hs.len() as u64) as usize; hs[j] = other.fhashes[(fin_number + 1 + j as u64).min(other.tip()) as usize].clone(); }
+            // at most one deviating peer, and only next to at least two honest ones: with equally many votes for two values the
+            // winner is the iteration order of a HashMap built afresh in every call (not even the client itself sees one value)
+            if i == 1 && n_peers >= 3 && rng.chance(1, 3) && !hs.is_empty() { let j = rng.below(hs.len() as u64) as usize; hs[j] = other.fhashes[(fin_number + 1 + j as u64).min(other.tip()) as usize].clone(); }
             peer_hashes.push(hs.clone());
             net.peers.mock_latest_block_filter_hashes(*id, fin_number, hs);
         }
@@ -333,7 +335,9 @@ pub(crate) fn run(seed: u64, n: u64, out: &mut Out) {
                 // for it): they are fine as long as they are live on the chain
                 let live_any = bc.live_cells(&pool[sid], is_lock, 0, ss.block_number);
                 let missing: Vec<_> = expect.iter().filter(|c| !got_upto.contains(c)).map(|c| (c.0, c.1, c.2)).collect();
-                let phantom: Vec<_> = got_upto.iter().filter(|c| !live_any.contains(c)).map(|c| (c.0, c.1, c.2)).collect();
+                // (what was indexed from blocks at or before the start number is a bonus nobody was promised: a later spend of it
+                // need not have been examined yet)
+                let phantom: Vec<_> = got_upto.iter().filter(|c| c.0 > from && !live_any.contains(c)).map(|c| (c.0, c.1, c.2)).collect();
                 if !missing.is_empty() || !phantom.is_empty() {
                     // the same observation breaks C03 (index misses activity) and C09 (get_scripts reports a height past a skipped block);
                     // the substituted-hash attack is listed once, under C06
